@@ -1361,3 +1361,40 @@ Example eri_prim_correct_ex :
             (fsub KQ4 Qx (qc_of (-1) 1)) (fsub KQ4 Qy (qc_of 1 4)) (fsub KQ4 Qz (qc_of 0 1))
             (fsub KQ4 Px Qx) (fsub KQ4 Py Qy) (fsub KQ4 Pz Qz) 1 0 0 1 0 1).
 Proof. apply Qc_is_canon. vm_compute. reflexivity. Qed.
+
+(* a concrete quartet of shells (p d | s p), two primitives each, meeting every hypothesis of
+   two_elec_correct for the entry [0][1][0][2][0][0][0][1] *)
+Definition ex_shell (l : nat) (x y : Qc) (e1 e2 : Qc) : shell Qc :=
+  mkShell Qc l x y (qc_of 0 1) [e1; e2] [[qc_of 1 1]; [qc_of 1 2]] false [] [].
+Definition ex_s1 := ex_shell 1 (qc_of 0 1) (qc_of 1 2) (qc_of 1 1) (qc_of 1 2).
+Definition ex_s2 := ex_shell 2 (qc_of 1 1) (qc_of 0 1) (qc_of 3 2) (qc_of 1 4).
+Definition ex_s3 := ex_shell 0 (qc_of (-1) 2) (qc_of 1 1) (qc_of 2 1) (qc_of 1 2).
+Definition ex_s4 := ex_shell 1 (qc_of 1 4) (qc_of (-1) 1) (qc_of 1 1) (qc_of 3 4).
+Ltac ex_in := intros;
+  repeat match goal with H : In _ _ |- _ => cbn [s_exps ex_s1 ex_s2 ex_s3 ex_s4 ex_shell In] in H end;
+  repeat match goal with
+         | H : _ \/ _ |- _ => destruct H as [H|H]
+         | H : False |- _ => contradiction
+         | H : _ = ?x |- _ => subst x
+         end;
+  apply qc_neq_of_bool; vm_compute; reflexivity.
+Example two_elec_hyps_ex :
+  (forall x, fapx KQ4 x = x) /\ fadd KQ4 (f1 KQ4) (f1 KQ4) <> f0 KQ4
+  /\ (forall alpha beta, In alpha (s_exps ex_s1) -> In beta (s_exps ex_s2) -> fadd KQ4 alpha beta <> f0 KQ4)
+  /\ (forall gamma delta, In gamma (s_exps ex_s3) -> In delta (s_exps ex_s4) -> fadd KQ4 gamma delta <> f0 KQ4)
+  /\ (forall alpha beta gamma delta, In alpha (s_exps ex_s1) -> In beta (s_exps ex_s2) ->
+        In gamma (s_exps ex_s3) -> In delta (s_exps ex_s4) ->
+        fadd KQ4 (fadd KQ4 alpha beta) (fadd KQ4 gamma delta) <> f0 KQ4)
+  /\ (0 < nseg ex_s1 /\ 0 < nseg ex_s2 /\ 0 < nseg ex_s3 /\ 0 < nseg ex_s4)%nat
+  /\ (1 < length (comps_of ex_s1) /\ 2 < length (comps_of ex_s2)
+      /\ 0 < length (comps_of ex_s3) /\ 1 < length (comps_of ex_s4))%nat
+  /\ (compsum (nth 1 (comps_of ex_s1) (0, 0, 0)) <= s_l ex_s1
+      /\ compsum (nth 2 (comps_of ex_s2) (0, 0, 0)) <= s_l ex_s2
+      /\ compsum (nth 0 (comps_of ex_s3) (0, 0, 0)) <= s_l ex_s3
+      /\ compsum (nth 1 (comps_of ex_s4) (0, 0, 0)) <= s_l ex_s4)%nat.
+Proof.
+  split; [reflexivity|]. split; [apply qc_neq_of_bool; vm_compute; reflexivity|].
+  split; [ex_in|]. split; [ex_in|]. split; [ex_in|].
+  split; [vm_compute; repeat split; repeat constructor|].
+  split; vm_compute; repeat split; repeat constructor.
+Qed.
